@@ -534,4 +534,109 @@ theorem post_sound (s0 : St) (h0 : ∀ f, s0.cur f < s0.next) :
           · cases hb
           · exact hb
 
+theorem entry_sound (fs : List Field) (st : St) : Sound st st (Abs.entry fs) :=
+  ⟨fun _ _ => rfl, fun _ h => by simp [Abs.entry] at h, fun _ h => by simp [Abs.entry] at h,
+   fun _ h => by simp [Abs.entry] at h, Nat.le_refl _,
+   ⟨fun h => by simp [Abs.entry] at h, fun h => by simp [Abs.entry] at h⟩⟩
+
+theorem entryRO_sound (fs : List Field) (st : St) (hro : st.readonly = true) : Sound st st (Abs.entryRO fs) :=
+  ⟨fun _ _ => rfl, fun _ h => by simp [Abs.entryRO] at h, fun _ h => by simp [Abs.entryRO] at h,
+   fun _ h => by simp [Abs.entryRO] at h, Nat.le_refl _,
+   ⟨fun h => by simp [Abs.entryRO] at h, fun _ => hro⟩⟩
+
+theorem clean_of_holds {s0 s : St} {fs : List Field} {o : Option Abs} (h : Holds s0 o s)
+    (hc : okClean fs o = true) : ∀ f ∈ fs, s.cur f = s0.cur f := by
+  obtain ⟨a, rfl, hs⟩ := h
+  intro f hf
+  simp only [okClean, Abs.allClean, List.all_eq_true, decide_eq_true_eq] at hc
+  exact hs.clean f (hc f hf)
+
+theorem disciplined_atomic_aux (fs : List Field) (sc : Stmt) (hd : Disciplined fs sc = true)
+    (fuel : Nat) (st : St) (os : Outcomes) (hwf : st.WF)
+    (hexc : (run fuel sc st os).exit = .exc ∨ (run fuel sc st os).exit = .roExc) :
+    ∀ f ∈ fs, (run fuel sc st os).st.cur f = st.cur f := by
+  have hs := post_sound st hwf fuel sc st (Abs.entry fs) os (entry_sound fs st)
+  rw [OK_iff] at hs
+  have hd' : okClean fs (post sc (Abs.entry fs)).exc = true ∧ okClean fs (post sc (Abs.entry fs)).roExc = true := by
+    simp only [Disciplined, Bool.and_eq_true] at hd
+    exact hd
+  rcases hexc with h | h
+  · rw [h] at hs
+    rcases hs with hs | hs
+    · cases hs
+    · exact clean_of_holds hs hd'.1
+  · rw [h] at hs
+    rcases hs with hs | hs
+    · cases hs
+    · exact clean_of_holds hs hd'.2
+
+theorem readonly_safe_aux (fs : List Field) (sc : Stmt) (hd : ReadonlySafe fs sc = true)
+    (fuel : Nat) (st : St) (os : Outcomes) (hwf : st.WF) (hro : st.readonly = true)
+    (hne : (run fuel sc st os).exit ≠ .stuck) :
+    ∀ f ∈ fs, (run fuel sc st os).st.cur f = st.cur f := by
+  have hs := post_sound st hwf fuel sc st (Abs.entryRO fs) os (entryRO_sound fs st hro)
+  simp only [ReadonlySafe, Bool.and_eq_true] at hd
+  obtain ⟨⟨⟨⟨⟨h1, h2⟩, h3⟩, h4⟩, h5⟩, h6⟩ := hd
+  rw [OK_iff] at hs
+  rcases hs with hs | hs
+  · exact absurd hs hne
+  · cases hx : (run fuel sc st os).exit <;> rw [hx] at hs <;> simp only [Post.get] at hs
+    · exact clean_of_holds hs h1
+    · exact clean_of_holds hs h2
+    · exact clean_of_holds hs h3
+    · exact clean_of_holds hs h4
+    · exact clean_of_holds hs h5
+    · exact clean_of_holds hs h6
+    · obtain ⟨a, ha, _⟩ := hs; cases ha
+
+theorem readonly_rejects_aux (sc : Stmt) (hg : guardedFirst sc = true) (fuel : Nat) (st : St) (os : Outcomes)
+    (hro : st.readonly = true) :
+    ((run fuel sc st os).exit = .roExc ∨ (run fuel sc st os).exit = .stuck) ∧
+    (run fuel sc st os).st.cur = st.cur ∧ (run fuel sc st os).st.saved = st.saved ∧
+    (run fuel sc st os).os = os := by
+  induction fuel generalizing sc st with
+  | zero => rw [run_zero]; exact ⟨Or.inr rfl, rfl, rfl, rfl⟩
+  | succ n ih =>
+    cases sc with
+    | guard => simp [run, hro]
+    | scope a =>
+      have hga : guardedFirst a = true := by simpa [guardedFirst] using hg
+      have h := ih a hga st hro
+      simp only [run]
+      generalize run n a st os = r at h ⊢
+      obtain ⟨he, h2, h3, h4⟩ := h
+      rcases he with he | he <;> simp only [he] <;> exact ⟨by simp [he], h2, h3, h4⟩
+    | seq a b =>
+      cases a with
+      | mark k =>
+        have hgb : guardedFirst b = true := by simpa [guardedFirst] using hg
+        simp only [run]
+        cases n with
+        | zero => simp [run_zero]
+        | succ m =>
+          simp only [run]
+          have h := ih b hgb { st with trace := k :: st.trace } hro
+          exact h
+      | guard =>
+        simp only [run]
+        cases n with
+        | zero => simp [run_zero]
+        | succ m => simp [run, hro]
+      | seq x y =>
+        have hga : guardedFirst (.seq x y) = true := by simpa [guardedFirst] using hg
+        have h := ih (.seq x y) hga st hro
+        simp only [run]
+        generalize run n (.seq x y) st os = r at h ⊢
+        obtain ⟨he, h2, h3, h4⟩ := h
+        rcases he with he | he <;> simp only [he] <;> exact ⟨by simp [he], h2, h3, h4⟩
+      | scope x =>
+        have hga : guardedFirst (.scope x) = true := by simpa [guardedFirst] using hg
+        have h := ih (.scope x) hga st hro
+        simp only [run]
+        generalize run n (.scope x) st os = r at h ⊢
+        obtain ⟨he, h2, h3, h4⟩ := h
+        rcases he with he | he <;> simp only [he] <;> exact ⟨by simp [he], h2, h3, h4⟩
+      | _ => simp [guardedFirst] at hg
+    | _ => simp [guardedFirst] at hg
+
 end CssVerif.Mutators
